@@ -21,7 +21,9 @@ def _loops(flow):
 
 def sorted_rule(run, model, rule="C20.sorted"):
     """Every loop of repr_values whose order reaches the output iterates a sorted(...) value."""
-    fi = model.func("_represent.repr_values")
+    from ..decomp import loops_view
+
+    fi = loops_view(model, model.func("_represent.repr_values"))
     flow = get_flow(model, fi)
     run.saw(flow)
     n = 0
@@ -29,47 +31,126 @@ def sorted_rule(run, model, rule="C20.sorted"):
         its = strip_sites(it)
         # loops over a tuple of inputs of one failing element keep the generator's order (deterministic)
         ordered = its[0] == "call" and its[1] == ("builtin", "sorted")
-        fixed = its[0] == "attr" and its[2] == "inputs"
+        fixed = (its[0] == "attr" and its[2] == "inputs") or (its[0] == "display" and its[1] in ("tuple", "list") and all(x[0] == "const" for x in its[2]))  # a literal sequence has one order
         n += 1
         run.check(ordered or fixed, rule, "%s:loop@%d" % (fi.qual, n), "iterates %s" % show(its, 60), "the loop iterates %s: the order of the value lines would depend on the order of keyword arguments / hash seed" % show(its, 80), fi.loc(h), None, first_line(h.stmt))
     # the sorted keys are those of the mapping that is then indexed
     return n
 
 
-def a_repr_rule(run, model, rule="C20.a-repr"):
-    """Every user value interpolated into a part goes through <a_repr>.repr, a_repr being the contract's own."""
-    fi = model.func("_represent.repr_values")
+def _a_repr_sites(run, model, rule, fi, apname, name_params):
+    """Judge every formatting site of ``fi`` (``apname``: its parameter holding the a_repr; ``name_params``: its
+    parameters that hold keys / names, i.e. text the library produced itself); returns the number of sites."""
     flow = get_flow(model, fi)
     run.saw(flow)
-    ap = ("param", "a_repr")
-    n_sites = 0
+    ap = ("param", apname)
+    box = [0]
+    # ``for name, value in <failing element>.inputs`` (loop or comprehension): the first of each pair is a name
+    pair_names = set()
+    for sub in ast.walk(fi.node):
+        gens = [(g_.target, g_.iter) for g_ in sub.generators] if isinstance(sub, (ast.ListComp, ast.GeneratorExp, ast.SetComp, ast.DictComp)) else ([(sub.target, sub.iter)] if isinstance(sub, ast.For) else [])
+        for tg, it in gens:
+            if isinstance(tg, ast.Tuple) and len(tg.elts) == 2 and isinstance(tg.elts[0], ast.Name) and isinstance(it, ast.Attribute) and it.attr == "inputs":
+                pair_names.add(tg.elts[0].id)
+
+    def is_name(ts):
+        """a key of the shown values / the name of a loop variable: text the library produced itself"""
+        if ts[0] == "elem" and ts[1][0] == "call" and ts[1][1] == ("builtin", "sorted"):
+            return True
+        if ts[0] == "idx" and ts[1][0] == "elem" and ts[2] == ("const", "0"):
+            return True
+        if ts[0] == "param" and ts[1] in name_params:
+            return True
+        return False
+
+    def judge(n, exprs_convs, what):
+        """exprs_convs: [(value expression, has a !r/!s/!a conversion)]"""
+        bad = None
+        for arg, conv in exprs_convs:
+            ts = strip_sites(flow.term(arg, n))
+            is_repr = ts[0] == "call" and ts[1] == ("attr", ap, "repr")
+            if isinstance(arg, ast.Name) and arg.id in pair_names and ts[0] in ("unk", "idx"):
+                continue
+            if conv and not is_name(ts):
+                bad = "a conversion (!r / !s / !a) renders the value `%s` with the plain repr/str: the contract's a_repr (and its size limits) is bypassed" % src_of(arg)
+            elif not is_repr and not is_name(ts):
+                bad = "the value `%s` is interpolated without the contract's a_repr (size limits, deterministic rendering of sets and dicts)" % src_of(arg)
+        run.check(bad is None, rule, "%s:format@%d" % (fi.qual, box[0]), "`%s` interpolates names and a_repr.repr(value) only" % what, bad or "", fi.loc(n), None, first_line(n.stmt))
+
     for n in flow.cfg.nodes:
         for call, c, a in calls_in(n):
             f = call.func
             if isinstance(f, ast.Attribute) and f.attr == "format" and isinstance(f.value, ast.Constant) and isinstance(f.value.value, str):
                 fmt = f.value.value
-                n_sites += 1
-                bad = None
-                if "!r" in fmt or "!s" in fmt or "!a" in fmt:
-                    bad = "a conversion (`%s`) in the format renders the value with the plain repr/str: the contract's a_repr (and its size limits) is bypassed" % fmt
-                for i, arg in enumerate(call.args):
-                    t = flow.term(arg, n)
-                    ts = strip_sites(t)
-                    # keys / names are strings produced by the library (source text); values must be a_repr.repr(...)
-                    is_repr = ts[0] == "call" and ts[1] == ("attr", ap, "repr")
-                    if i == 0:
-                        continue
-                    if not is_repr:
-                        bad = "the value `%s` is interpolated without the contract's a_repr (size limits, deterministic rendering of sets and dicts)" % src_of(arg)
-                run.check(bad is None, rule, "%s:format@%d" % (fi.qual, n_sites), "`%s` interpolates a_repr.repr(value)" % fmt, bad or "", fi.loc(n), None, first_line(n.stmt))
-        # f-strings or % formatting with values
+                box[0] += 1
+                import string
+
+                fields = [(fld, conv) for _, fld, _, conv in string.Formatter().parse(fmt) if fld is not None]
+                pairs = []
+                auto = 0
+                for fld, conv in fields:
+                    key = fld.split(".")[0].split("[")[0]
+                    if key == "":
+                        idx = auto
+                        auto += 1
+                        arg = call.args[idx] if idx < len(call.args) else None
+                    elif key.isdigit():
+                        arg = call.args[int(key)] if int(key) < len(call.args) else None
+                    else:
+                        arg = ([kw.value for kw in call.keywords if kw.arg == key] or [None])[0]
+                    if arg is not None:
+                        pairs.append((arg, bool(conv)))
+                judge(n, pairs, fmt)
+        # f-strings: the same judgement per interpolated value; %-formatting is not used for values
         if n.ast is not None and n.kind in ("stmt", "return"):
             for sub in ast.walk(n.ast):
-                if isinstance(sub, ast.JoinedStr) or (isinstance(sub, ast.BinOp) and isinstance(sub.op, ast.Mod) and isinstance(sub.left, ast.Constant) and isinstance(sub.left.value, str)):
-                    run.violation(rule, "%s:fstring" % fi.qual, "a value is rendered with an f-string / %%-format instead of a_repr.repr", fi.loc(n), None, first_line(n.stmt))
+                if isinstance(sub, ast.JoinedStr):
+                    pairs = [(v.value, v.conversion != -1) for v in sub.values if isinstance(v, ast.FormattedValue)]
+                    if pairs:
+                        box[0] += 1
+                        judge(n, pairs, src_of(sub, 60))
+                if isinstance(sub, ast.BinOp) and isinstance(sub.op, ast.Mod) and isinstance(sub.left, ast.Constant) and isinstance(sub.left.value, str):
+                    run.violation(rule, "%s:percent" % fi.qual, "a value is rendered with %%-formatting instead of a_repr.repr", fi.loc(n), None, first_line(n.stmt))
         for call, c, a in calls_in(n):
             if isinstance(call.func, ast.Name) and call.func.id in ("repr", "str") :
                 run.violation(rule, "%s:%s" % (fi.qual, call.func.id), "a value is rendered with the built-in %s() instead of a_repr.repr" % call.func.id, fi.loc(n), None, first_line(n.stmt))
+    return box[0]
+
+
+def a_repr_rule(run, model, rule="C20.a-repr"):
+    """Every user value interpolated into a part goes through <a_repr>.repr, a_repr being the contract's own."""
+    root = model.func("_represent.repr_values")
+    # repr_values and the module's helpers that receive its a_repr (also when called from inside a comprehension)
+    work, done = [(root, "a_repr", frozenset())], []
+    n_sites = 0
+    while work:
+        fi, apname, name_params = work.pop(0)
+        if any(x is fi for x in done):
+            continue
+        done.append(fi)
+        # comprehension / loop variables over sorted(...): keys
+        key_vars = set()
+        for sub in ast.walk(fi.node):
+            gens = sub.generators if isinstance(sub, (ast.ListComp, ast.GeneratorExp, ast.SetComp, ast.DictComp)) else []
+            for g_ in gens:
+                if isinstance(g_.target, ast.Name) and isinstance(g_.iter, ast.Call) and isinstance(g_.iter.func, ast.Name) and g_.iter.func.id == "sorted":
+                    key_vars.add(g_.target.id)
+            if isinstance(sub, ast.For) and isinstance(sub.target, ast.Name) and isinstance(sub.iter, ast.Call) and isinstance(sub.iter.func, ast.Name) and sub.iter.func.id == "sorted":
+                key_vars.add(sub.target.id)
+        for call in ast.walk(fi.node):
+            if isinstance(call, ast.Call) and isinstance(call.func, ast.Name):
+                g = [x for x in model.modules["_represent"].funcs if x.parent is None and x.cls is None and x.name == call.func.id and x.live]
+                if not g:
+                    continue
+                gp = [a_.arg for a_ in g[0].node.args.posonlyargs + g[0].node.args.args]
+                bound = dict((gp[i_], arg) for i_, arg in enumerate(call.args) if i_ < len(gp))
+                bound.update((kw.arg, kw.value) for kw in call.keywords if kw.arg is not None)
+                aps = [p_ for p_, e_ in bound.items() if isinstance(e_, ast.Name) and e_.id == apname]
+                if aps:
+                    names = frozenset(p_ for p_, e_ in bound.items() if isinstance(e_, ast.Name) and (e_.id in key_vars or e_.id in name_params))
+                    work.append((g[0], aps[0], names))
+        n_sites += _a_repr_sites(run, model, rule, fi, apname, name_params)
+    fi = root
     # a_repr comes from the violated contract
     gm = model.func("_represent.generate_message")
     fl2 = get_flow(model, gm)
@@ -186,15 +267,19 @@ def hide_placeholders(run, model, rule="C20.filter"):
         for call, c, a in calls_in(n):
             t = strip_sites(flow.term(call, n))
             if t[0] == "call" and t[1][0] == "attr" and t[1][2] == "pop" and t[2] and t[2][0][0] == "const":
-                pops.append((n, ast.literal_eval(t[2][0][1]), t[1][1]))
+                pops.append((n, ast.literal_eval(t[2][0][1]), t[1][1], None))
+            elif t[0] == "call" and t[1][0] == "attr" and t[1][2] == "pop" and t[2] and t[2][0][0] == "elem" and t[2][0][1][0] == "display" and all(x[0] == "const" for x in t[2][0][1][2]):
+                # ``for name in ('_ARGS', '_KWARGS'): ... pop(name)``: one pop per element of the literal
+                for x in t[2][0][1][2]:
+                    pops.append((n, ast.literal_eval(x[1]), t[1][1], t[2][0]))
     gg = GuardGraph(flow)
     for name in ("_ARGS", "_KWARGS"):
-        hits = [(n, recv) for n, lit, recv in pops if lit == name]
+        hits = [(n, recv, var) for n, lit, recv, var in pops if lit == name]
         bad = None
         if len(hits) != 1:
             bad = "`%s` is not removed from the shown arguments" % name
         else:
-            n, recv = hits[0]
+            n, recv, var = hits[0]
             # popped from a copy, not from the caller's mapping
             if recv == ("param", "resolved_kwargs"):
                 bad = "`%s` is popped from the call's own mapping: later contracts of the same call lose it" % name
@@ -202,7 +287,7 @@ def hide_placeholders(run, model, rule="C20.filter"):
             for (nid, k), (kn, atoms) in gg.edge_facts.items():
                 for a, pol in kn:
                     a2 = strip_sites(a)
-                    if a2[0] == "op" and a2[1] in ("cmp:NotIn", "cmp:In") and a2[2][0] == ("const", repr(name)) and "parameters" in show(a2[2][1]) and (a2[1] == "cmp:NotIn") == pol:
+                    if a2[0] == "op" and a2[1] in ("cmp:NotIn", "cmp:In") and (a2[2][0] == ("const", repr(name)) or (var is not None and a2[2][0] == var)) and "parameters" in show(a2[2][1]) and (a2[1] == "cmp:NotIn") == pol:
                         if gg.necessary([flow.cfg.entry], [n.id], (a, pol)):
                             ok = True
             if not ok and bad is None:
@@ -323,7 +408,14 @@ def text_and_assembly(run, model, rule_text="C07.text", rule_asm="C07.assembly")
                         apps = []
                         for ct, n in p.calls:
                             if ct[1][0] == "attr" and ct[1][2] == "append" and ct[1][1][0] == "display":
-                                apps.append(strip_sites(ct[2][0]))
+                                a_ = ct[2][0]
+                                # ``x if <test> else y``: the test is decided like a branch of the table
+                                while a_[0] == "op" and a_[1] == "ifexp":
+                                    v_ = tables.evaluate(a_[2][0], ev)
+                                    if v_ is None:
+                                        break
+                                    a_ = a_[2][1] if v_ else a_[2][2]
+                                apps.append(strip_sites(a_))
                         kinds = []
                         for a in apps:
                             s = show(a)
@@ -461,15 +553,28 @@ def decorator_regex(run, model, rule="C07.layout-regex"):
     def names_in(expr):
         return [c.func.value.id for c in ast.walk(expr) if isinstance(c, ast.Call) and isinstance(c.func, ast.Attribute) and c.func.attr in ("match", "search") and isinstance(c.func.value, ast.Name) and c.func.value.id in patterns]
 
-    # the tests of inspect_decorator that match lines: each is a disjunction of patterns
+    # the tests of inspect_decorator (and of the module's helpers it calls) that match lines: each is a disjunction
+    todo, funcs = [fi], []
+    while todo:
+        g = todo.pop()
+        if g in funcs:
+            continue
+        funcs.append(g)
+        gfl = get_flow(model, g)
+        for n in gfl.cfg.nodes:
+            for call, c, a in calls_in(n):
+                cf = fi_of_term(model, gfl.term(call.func, n))
+                if cf is not None and cf.module.name == "_represent" and cf.cls is None and cf not in funcs:
+                    todo.append(cf)
     tests = []
-    for sub in ast.walk(fi.node):
-        if isinstance(sub, (ast.If, ast.While, ast.IfExp)) and names_in(sub.test):
-            tests.append((sub, names_in(sub.test)))
-        if isinstance(sub, ast.comprehension):
-            for cond in sub.ifs:
-                if names_in(cond):
-                    tests.append((cond, names_in(cond)))
+    for g in funcs:
+        for sub in ast.walk(g.node):
+            if isinstance(sub, (ast.If, ast.While, ast.IfExp)) and names_in(sub.test):
+                tests.append((sub, names_in(sub.test)))
+            if isinstance(sub, ast.comprehension):
+                for cond in sub.ifs:
+                    if names_in(cond):
+                        tests.append((cond, names_in(cond)))
     if not tests:
         raise AnalysisError("_represent.inspect_decorator: no test matching source lines against a module-level pattern was found")
     deco = ["@a", "    @name  # comment", "@a.b.setter", "  @_x(", "\t@icontract.require(", "@registry['x']", "@Z"]
